@@ -128,3 +128,53 @@ func VerifH07() {
 	w.checkReads("H07.after-reopen")
 	nd.Reach("H07.end")
 }
+
+// VerifH07b: the loser's Commit cannot be turned into a success by repeating it. A and B write
+// the same key, A commits first; B's Commit is then issued twice at once (a client retry, a
+// duplicated request). Whatever the interleaving, no Commit of B reports success, each fails
+// with ErrTxSerialization or - for the call that finds the transaction already gone -
+// ErrTxNotFound, and A's value stays.
+func VerifH07b() {
+	P := 1
+	if nd.Tier() == 1 {
+		P = 2
+	}
+	nd.Bound("H07b.preemption_bound", P)
+	concreteCounter = true
+	w := newWorld(stdConfig(), []string{"a", "b"})
+	a := w.begin(snapshotLevels[nd.Choice("level", 2)])
+	b := w.begin(snapshotLevels[nd.Choice("level", 2)])
+	nd.Assert(w.doSet(a, "a", w.freshVal(), 0) == nil, "H07b.tx-write")
+	nd.Assert(w.doSet(b, "a", w.freshVal(), 0) == nil, "H07b.tx-write")
+	if nd.Choice("loser-writes-b-too", 2) == 1 {
+		nd.Assert(w.doSet(b, "b", w.freshVal(), 0) == nil, "H07b.tx-write")
+	}
+	w.commit(a, "H07b.first-committer")
+	errs := make([]error, 2)
+	nd.SetPreemptionBound(P)
+	go func() { errs[1] = w.txs[b].h.Commit(ctx) }()
+	errs[0] = w.txs[b].h.Commit(ctx)
+	nd.JoinAll()
+	nd.SetPreemptionBound(0)
+	serial := 0
+	for _, err := range errs {
+		nd.Assert(err != nil, "H07b.repeated-commit-of-loser-succeeds")
+		if errors.Is(err, fs_db.ErrTxSerialization) {
+			serial++
+		} else {
+			nd.Assert(errors.Is(err, fs_db.ErrTxNotFound), "H07b.loser-error-class")
+		}
+	}
+	nd.Assert(serial >= 1, "H07b.loser-told-serialization")
+	// none of the loser's writes is visible
+	var rest []rver
+	for _, v := range w.vs {
+		if v.owner != b {
+			rest = append(rest, v)
+		}
+	}
+	w.vs = rest
+	w.txs[b].open = false
+	w.checkReads("H07b.final")
+	nd.Reach("H07b.end")
+}
